@@ -83,15 +83,15 @@ func argRole(v ssa.Value) (role string, base ssa.Value) {
 			}
 		}
 		if c, ok := e.Tuple.(*ssa.Call); ok && e.Index == 0 && calleeName(&c.Call) == "strings.Cut" {
-			if sep, isC := constOf(c.Call.Args[1]); isC && sep == "\n" {
-				r, b := argRole(c.Call.Args[0])
+			if sep, isC := constOf(argsOf(c)[1]); isC && sep == "\n" {
+				r, b := argRole(argsOf(c)[0])
 				return "cutnl(" + r + ")", b
 			}
 		}
 	}
 	if s, ok := v.(*ssa.Slice); ok && s.Low == nil && s.High != nil {
 		if c, ok := strip(s.High).(*ssa.Call); ok && (calleeName(&c.Call) == "strings.Index" || calleeName(&c.Call) == "strings.IndexByte") {
-			if sep, isC := constOf(c.Call.Args[1]); isC && (sep == "\n" || sep == "10") && c.Call.Args[0] == s.X {
+			if sep, isC := constOf(argsOf(c)[1]); isC && (sep == "\n" || sep == "10") && argsOf(c)[0] == s.X {
 				r, b := argRole(s.X)
 				return "cutnl(" + r + ")", b
 			}
@@ -185,11 +185,11 @@ func namedType(t types.Type) string {
 // explicit elements.
 func appendedElems(v ssa.Value) (base ssa.Value, elems []ssa.Value, ok bool) {
 	c, isCall := strip(v).(*ssa.Call)
-	if !isCall || calleeName(&c.Call) != "builtin:append" || len(c.Call.Args) != 2 {
+	if !isCall || calleeName(&c.Call) != "builtin:append" || len(argsOf(c)) != 2 {
 		return nil, nil, false
 	}
-	base = c.Call.Args[0]
-	sl, isSl := c.Call.Args[1].(*ssa.Slice)
+	base = argsOf(c)[0]
+	sl, isSl := argsOf(c)[1].(*ssa.Slice)
 	if !isSl {
 		return base, nil, false
 	}
@@ -242,7 +242,9 @@ func findUploadSite(m *Module) *uploadSite {
 		if !ok || len(elems) != 1 {
 			infra("createReport: upload.Programs store is not append(…, x)")
 		}
-		s.x = strip(elems[0])
+		// the element appended: through a merge (a helper that returns (x, ok)) the facts at the
+		// append select the value
+		s.x = strip(refine(strip(elems[0]), factsAt(st)))
 	}
 	if s.progStore == nil {
 		infra("UNRESOLVED anchor: no store to upload.Programs in createReport")
@@ -439,8 +441,8 @@ func reportHeader(fn *ssa.Function, v ssa.Value) (map[string]hdrField, bool) {
 		}
 		subst := map[ssa.Value]ssa.Value{}
 		for i, p := range callee.Params {
-			if i < len(x.Call.Args) {
-				subst[p] = x.Call.Args[i]
+			if i < len(argsOf(x)) {
+				subst[p] = argsOf(x)[i]
 			}
 		}
 		for _, b := range callee.Blocks {
